@@ -73,6 +73,9 @@ Record site := { s_field : nat; s_func : nat; s_write : bool; s_atomic : bool;
                  s_locks : list (nat * bool);      (* lock fields syntactically held here, exclusive? *)
                  s_ctor : bool }.                  (* inside the constructor (object not yet shared) *)
 
+(* a call of (or reference to) a method, with the flags acquired by compare-and-swap around it *)
+Record mcall := { c_caller : nat; c_callee : nat; c_guards : list nat }.
+
 Record policy := { p_prot : nat -> prot;
                    p_token_funcs : list (nat * nat);      (* (function, token): functions that run only with the token *)
                    p_owner_funcs : list nat }.            (* functions of the owning goroutine *)
@@ -105,3 +108,12 @@ Definition owner_read (pol : policy) (s : site) : bool :=
   | POwnerRead lk => andb (negb (s_write s)) (negb (has_lock (held pol s) lk false))
   | _ => false
   end.
+
+(* a token function may only be called (or handed to the executor) where its token was just acquired by a
+   successful compare-and-swap, or from a function that itself runs with that token *)
+Definition call_ok (pol : policy) (c : mcall) : bool :=
+  forallb (fun ft => if Nat.eqb (fst ft) (c_callee c)
+                     then orb (existsb (Nat.eqb (snd ft)) (c_guards c))
+                              (existsb (fun ft' => andb (Nat.eqb (fst ft') (c_caller c)) (Nat.eqb (snd ft') (snd ft))) (p_token_funcs pol))
+                     else true) (p_token_funcs pol).
+Definition bad_calls (pol : policy) (cs : list mcall) : list mcall := filter (fun c => negb (call_ok pol c)) cs.
